@@ -10,7 +10,7 @@ claim("C15",
       "DESIGN.md §3 C15")
 
 claim("C01",
-      "Decides, for every call site and path of the source, three code-shape conditions without which the live index cannot equal a rebuild from the tape: index rows are changed only underneath recovery.Index (call-graph cut), the header appended to the tape is exactly the snapshot the live index receives modulo the sign/encrypt wrappers (must-dataflow per WriteHeader site), every success exit after an append replays through recovery.Index, and the header converters pair fields correctly. Does not decide replay semantics over histories or tar fidelity.",
+      "Decides, for every call site and path of the source, three code-shape conditions without which the live index cannot equal a rebuild from the tape: index rows are changed only underneath recovery.Index (call-graph cut), the header appended to the tape is exactly the snapshot the live index receives modulo the sign/encrypt wrappers (must-dataflow per WriteHeader site), every success exit after an append replays through recovery.Index, and the header converters pair fields correctly. Does not decide replay semantics over histories or tar fidelity. Also: `initializing=true` originates only in the root-creating Initialize functions, and replay applies every record past the caller's offset.",
       "static call-graph cut (who-may-call) + go/cfg must-dataflow (snapshot window, append-then-index) + struct-literal field pairing",
       "DESIGN.md §3 C01")
 claim("C02",
@@ -18,61 +18,61 @@ claim("C02",
       "struct-literal field pairing + go/cfg success-edge domination of append calls by inventory.Stat/List lookups",
       "DESIGN.md §3 C02")
 claim("C03",
-      "Decides the structure of the content pipeline for every format key and both writing functions: format/level switch exhaustiveness against config.Known* (evaluated from source), suffix add/remove agreement, agreement of the size pass and the write pass, inverse nesting of write and read stages by value identity, Flush/Close order before the encoded size is read, and save/restore of the logical size. Byte equality through the codecs is not decided.",
+      "Decides the structure of the content pipeline for every format key and both writing functions: format/level switch exhaustiveness against config.Known* (evaluated from source), suffix add/remove agreement, agreement of the size pass and the write pass, inverse nesting of write and read stages by value identity, Flush/Close order before the encoded size is read, and save/restore of the logical size. Byte equality through the codecs is not decided. Also: the two passes run under equivalent conditions (truth-table check) and copy with the same primitive per drive kind, and the size counters are advanced only by their own methods.",
       "switch-table exhaustiveness over constant objects + argument agreement + value-identity wiring + go/cfg must-dataflow for finish order",
       "DESIGN.md §3 C03")
 claim("C08",
-      "Decides fail-closed control flow: every success return of VerifyString/Verify/VerifyHeader outside the None arm lies only on paths across the success edge of a crypto-module verification primitive; replay, fetch and query use a header only after verification succeeded on it; each recovery.Index call site either passes a fail-closed verifier or provably overwrites what was read from the tape; Fetch checks the content signature after the copy. Cryptographic strength is trusted.",
+      "Decides fail-closed control flow: every success return of VerifyString/Verify/VerifyHeader outside the None arm lies only on paths across the success edge of a crypto-module verification primitive; replay, fetch and query use a header only after verification succeeded on it; each recovery.Index call site either passes a fail-closed verifier or provably overwrites what was read from the tape; Fetch checks the content signature after the copy. Cryptographic strength is trusted. Also: decrypt/verify failures in Index/Fetch/Query and Fetch failures in Restore end the call with that error, the content verifier is built from the configured format, and the verification packages keep no package-level state.",
       "go/cfg must-dataflow with success-edge facts (fail-closed returns, verify-before-use), per call-site callback classification",
       "DESIGN.md §3 C08")
 claim("C09",
-      "Decides that every header written passes SignHeader then EncryptHeader on the same variable with the configured format and recipient and no later store, that the tar writer is used only for WriteHeader and as Encrypt destination, and that the wrapper header carries only Format, Size and the encrypted JSON of the whole original header. Ciphertext secrecy is trusted to the crypto libraries.",
+      "Decides that every header written passes SignHeader then EncryptHeader on the same variable with the configured format and recipient and no later store, that the tar writer is used only for WriteHeader and as Encrypt destination, and that the wrapper header carries only Format, Size and the encrypted JSON of the whole original header. Ciphertext secrecy is trusted to the crypto libraries. Also: a failing decrypt ends Index/Fetch/Query with that error and the encryption/recovery packages keep no package-level state.",
       "go/cfg success-edge domination per WriteHeader site + who-may-use of the tar writer value + composite-literal shape",
       "DESIGN.md §3 C09")
 claim("C10",
-      "Decides resource typestate on every control-flow path: each exit after a successful drive acquire has released it (and no close runs with the drive free), the tape manager's mutex is released on every error return and on every return of Close, every other mutex Lock is paired on all exits, library code has no panic / Must-compile of caller input / pipe goroutine that drops an error, and every BackendConfig binds Close* to the manager that Get* came from. Hangs caused by client pacing and injected I/O faults are not decided.",
+      "Decides resource typestate on every control-flow path: each exit after a successful drive acquire has released it (and no close runs with the drive free), the tape manager's mutex is released on every error return and on every return of Close, every other mutex Lock is paired on all exits, library code has no panic / Must-compile of caller input / pipe goroutine that drops an error, and every BackendConfig binds Close* to the manager that Get* came from. Hangs caused by client pacing and injected I/O faults are not decided. Also: the drive is never re-acquired while the same call holds it, and no error result is dropped on the drive/index path outside a frozen exemption table.",
       "typestate may-dataflow over go/cfg with err!=nil edge refinement (drive bracket, mutex pairs) + who-may-call crash-site rule with embedded positive control",
       "DESIGN.md §3 C10")
 
 claim("C07",
-      "Narrow: decides the insert discipline of the index store - every generated Insert is reachable only after a lookup by the same primary-key columns found nothing, the CREATE arm of replay goes through that method, every raw primary-key rewrite must be preceded by a check of the destination key (two known findings in MoveHeader), and replay rejects unknown actions. Convergence of re-indexing over histories is not decided.",
+      "Narrow: decides the insert discipline of the index store - every generated Insert is reachable only after a lookup by the same primary-key columns found nothing, the CREATE arm of replay goes through that method, every raw primary-key rewrite must be preceded by a check of the destination key (two known findings in MoveHeader), and replay rejects unknown actions. Convergence of re-indexing over histories is not decided. Also: a persister mutator reports success only after its SQL write, opening the store loads the cached root, and replay skips no record.",
       "go/cfg edge-fact domination of Insert by a keyed lookup + SQL-fragment classification of raw statements + switch-table check",
       "DESIGN.md §3 C07")
 claim("C12",
-      "Decides that rows selected by an unescaped LIKE pattern built from a caller's name are re-checked against the literal prefix before they leave the persister, that Rename reaches Move only past a test relating the destination to the source's subtree, and that Delete/Move hand every descendant returned by the lookup to the write loop. What SQLite matches for a concrete tree is not decided.",
+      "Decides that rows selected by an unescaped LIKE pattern built from a caller's name are re-checked against the literal prefix before they leave the persister, that Rename reaches Move only past a test relating the destination to the source's subtree, and that Delete/Move hand every descendant returned by the lookup to the write loop. What SQLite matches for a concrete tree is not decided. Also: Move rewrites only the source prefix of descendant names, the subtree test runs on cleaned names, and descendants are pre-selected by a predicate from the table of known supersets.",
       "SQL-fragment discovery over resolved query-builder calls + go/cfg edge-fact guards on result appends and on the move call",
       "DESIGN.md §3 C12")
 claim("C13",
-      "Decides that every creation site tests the parent's kind before appending, that MkdirAll enumerates ancestors by a separator split and handles each prefix, that every select over the headers table filters tombstones (two frozen exceptions), and that listings exclude the queried directory itself. The SQL depth expression and limit arithmetic are not decided.",
+      "Decides that every creation site tests the parent's kind before appending, that MkdirAll enumerates ancestors by a separator split and handles each prefix, that every select over the headers table filters tombstones (two frozen exceptions), and that listings exclude the queried directory itself. The SQL depth expression and limit arithmetic are not decided. Also: the descendant pre-selection predicate is from the table of known supersets of the literal prefix.",
       "go/cfg edge-fact guards on append calls + value provenance of the range expression + SQL-fragment predicate check + who-may-call with embedded positive control",
       "DESIGN.md §3 C13")
 claim("C14",
-      "Decides the seek algebra (offset enters every whence arm with coefficient +1; success returns yield the computed target, never a byte count), access gating of the read and write paths by the open flags, exclusive consumption of O_TRUNC/O_APPEND in enterWriteMode, and flush-before-discard on close. Byte/offset equality with a reference file is not decided.",
+      "Decides the seek algebra (offset enters every whence arm with coefficient +1; success returns yield the computed target, never a byte count), access gating of the read and write paths by the open flags, exclusive consumption of O_TRUNC/O_APPEND in enterWriteMode, and flush-before-discard on close. Byte/offset equality with a reference file is not decided. Also: the first write decides from a fresh index lookup, no value read from the streaming reader is used after the reader may have been replaced, and write-cache Size() is a pure query of the underlying object.",
       "linear normalisation of switch-arm expressions (sibling agreement) + go/cfg edge-fact guards + success-edge domination",
       "DESIGN.md §3 C14")
 claim("C16",
-      "Decides destructive-path gating of opening: sink-reaching calls in Initialize only when the index has no root, no destructive call on the failure edge of the rebuild (one known finding), overwrite=true reaches the tape manager only from the two whitelisted commands, and truncation/rewind inside pkg/tape is control-dependent on overwrite with O_APPEND on every regular write open. Faithfulness of the view after opening is not decided.",
+      "Decides destructive-path gating of opening: sink-reaching calls in Initialize only when the index has no root, no destructive call on the failure edge of the rebuild (one known finding), overwrite=true reaches the tape manager only from the two whitelisted commands, and truncation/rewind inside pkg/tape is control-dependent on overwrite with O_APPEND on every regular write open. Faithfulness of the view after opening is not decided. Also: the rebuild in Initialize is configured from the read operations.",
       "go/cfg edge-fact guards and may-dataflow on the rebuild's failure edge + constant/flag provenance at NewTapeManager call sites",
       "DESIGN.md §3 C16")
 claim("C17",
-      "Single clause: decides that every caller-supplied name reaches SQL only after getSanitizedPath (one frozen exception while initializing), that every root spelling of pathext.IsRoot has a branch in the normaliser, and that every cache type wraps non-root archive roots in a base-path view. That a given foreign archive opens correctly is not decided.",
+      "Single clause: decides that every caller-supplied name reaches SQL only after getSanitizedPath (one frozen exception while initializing), that every root spelling of pathext.IsRoot has a branch in the normaliser, and that every cache type wraps non-root archive roots in a base-path view. That a given foreign archive opens correctly is not decided. Also: `initializing=true` provenance, the resynchronisation loop never returns a header-parse error, no cutset-style strings.Trim* on paths, and opening the store loads the root.",
       "go/cfg must-dataflow taint discipline (sanitise-before-use) + literal-set agreement between sibling functions",
       "DESIGN.md §3 C17")
 claim("C18",
-      "Decides table agreement per format key: the type each Parse* arm produces is identical to the type the matching Encrypt/Decrypt/Sign/Verify arm asserts, each generator/parser arm hands the password to a key-wrapping call of the crypto module, and conditional wrapping is matched by conditional unwrapping. Rejection of wrong passwords/keys is left to the crypto libraries.",
+      "Decides table agreement per format key: the type each Parse* arm produces is identical to the type the matching Encrypt/Decrypt/Sign/Verify arm asserts, each generator/parser arm hands the password to a key-wrapping call of the crypto module, and conditional wrapping is matched by conditional unwrapping. Rejection of wrong passwords/keys is left to the crypto libraries. Also: every success path of an identity parser used the password or established it is empty, and key bytes reach the crypto module unmodified.",
       "switch-arm sibling agreement with types.Identical on produced vs asserted types + parameter-to-crypto-call flow per arm",
       "DESIGN.md §3 C18")
 
 claim("C04",
-      "Decides units and formula agreement of tape positions at every call site, field store and result (record vs block axis, content vs last-known vs current, by provenance), that every byte-offset expression in pkg/recovery normalises to 512*(RecordSize*record+block) or one of its legitimate parts, that re-derivations use one block count for quotient and remainder, and that the position is advanced between two indexed members. The numbers themselves are not evaluated.",
+      "Decides units and formula agreement of tape positions at every call site, field store and result (record vs block axis, content vs last-known vs current, by provenance), that every byte-offset expression in pkg/recovery normalises to 512*(RecordSize*record+block) or one of its legitimate parts, that re-derivations use one block count for quotient and remainder, and that the position is advanced between two indexed members. The numbers themselves are not evaluated. Also: record and block travel as a pair from one origin, the last-indexed position comes from one row ordered by lastknownrecord*recordSize+lastknownblock, the next position derives from the reader offset (never from header sizes), and an overwriting replay starts at (0,0).",
       "provenance classification of integer arguments (units) + syntactic polynomial normalisation (sibling agreement) + go/cfg must-dataflow",
       "DESIGN.md §3 C04")
 claim("C05",
-      "Decides the append-only discipline structurally: who may open, truncate or write the drive (path and handle provenance, O_APPEND, overwrite provenance), that Delete/Move finish all lookups and preparation before the first WriteHeader, that the trailer logic sees dirty=true whenever a header was written, and that freshly built and wrapper headers are PAX. That an independent tar reader iterates the result is not decided.",
+      "Decides the append-only discipline structurally: who may open, truncate or write the drive (path and handle provenance, O_APPEND, overwrite provenance), that Delete/Move finish all lookups and preparation before the first WriteHeader, that the trailer logic sees dirty=true whenever a header was written, and that freshly built and wrapper headers are PAX. That an independent tar reader iterates the result is not decided. Also: the trailer closure's final flush depends on nothing but dirty and not-regular.",
       "who-may-touch provenance rules + go/cfg success-edge domination and may-dataflow (trailer flag) + constant/flag provenance",
       "DESIGN.md §3 C05")
 
 claim("C11",
-      "Decides a static Eraser-style lockset for the handle and tape-manager state (every access shares a held mutex with every write, over all call paths from the exported filesystem/file methods and the goroutines they start, context-sensitive on the held set with returns-held summaries) and acyclicity of the acquired-while-held graph including the wait-for edge of the pipe-feeding goroutine (two known cycles: the documented reader-holds-the-drive deadlock). Linearizability and the index store's cached root are not decided.",
+      "Decides a static Eraser-style lockset for the handle and tape-manager state (every access shares a held mutex with every write, over all call paths from the exported filesystem/file methods and the goroutines they start, context-sensitive on the held set with returns-held summaries) and acyclicity of the acquired-while-held graph including the wait-for edge of the pipe-feeding goroutine (two known cycles: the documented reader-holds-the-drive deadlock). Linearizability and the index store's cached root are not decided. Also: every index/drive access of an exported method lies inside its ioLock section (frozen exceptions), the tracked mutexes are never taken in shared/try mode, and goroutines start only at the known sites.",
       "context-sensitive static lockset + lock-order graph (go/cfg must-dataflow per function, call-graph exploration keyed by held set) with a pipe wait-for edge",
       "DESIGN.md §3 C11")
